@@ -408,14 +408,17 @@ CHECKS = {
           "linearly with the resistances (Laplacian / k, pseudo-inverse * k); "
           "series and parallel laws for all non-zero symbolic resistances; "
           "Foster's theorem (sum of conductance * effective resistance over "
-          "ordered pairs = 2(n-1)). The two C current-flow routines, "
+          "ordered pairs = 2(n-1)); with non-negative conductances every "
+          "effective resistance is non-negative (it equals the dissipated "
+          "energy 1/2 sum c_ij (v_i - v_j)^2 of the unit current). The two C "
+          "current-flow routines, "
           "regenerated from src_numerics.c as Gallina sums, equal the "
           "defining sums for every N; the state machine with the "
           "update_R-resets flag read from the source answers every query "
           "after any history of updates from the current resistances "
           "(refuted with a witness when the flag is off). Not proved "
-          "(search only): triangle inequality, Rayleigh path bound, "
-          "positivity. Correspondence inside Coq: the pinv specification on "
+          "(search only): triangle inequality, Rayleigh path bound, strict "
+          "positivity between distinct nodes. Correspondence inside Coq: the pinv specification on "
           "exact Fractions inverses, both C routines on the binary32 arrays "
           "they receive, histories of update / average / diameter / eff.",
   "design_ref": "DESIGN.md section 5, C18",
@@ -442,7 +445,9 @@ CHECKS = {
           "symmetrize_by_absmax is symmetric, lag-antisymmetric and keeps the "
           "entry of larger absolute value; squared Pearson correlation is "
           "symmetric and affine invariant, the covariance sign follows "
-          "sign(a c). Correspondence inside Coq: both kernels on the "
+          "sign(a c), and cov^2 <= var * var for series of any length "
+          "(Cauchy-Schwarz through Lagrange's identity: |r| <= 1). "
+          "Correspondence inside Coq: both kernels on the "
           "standardised binary32 arrays they receive, symmetrize. Everything "
           "numerical is translation validation against float64 references "
           "(partial: no Coq statement about log, quantile binning, QR, "
@@ -524,29 +529,38 @@ CHECKS = {
  "C20": {
   "text": "What can be decided from the sources is proved over facts "
           "regenerated on every run: the Cython directives of setup.py are "
-          "boundscheck=True / wraparound=False and no header, decorator or "
-          "with-block of the four .pyx files overrides them; in the model of "
-          "such a buffer every access yields a value from inside it or an "
-          "IndexError, including the loops that index before testing the "
-          "bound; at each of the 24 raw-pointer hand-overs the element widths "
-          "of buffer, cast, extern declaration and C definition agree; every "
-          "one of the 35 accesses of the index-addressed C routines "
-          "(current-flow betweenness x2, Spearman correlation) is inside the "
-          "extent the wrapper passes, for all sizes (one fixed tactic; a "
-          "false obligation does not compile). Not proved (partial): the "
-          "pointer-walking C routines (mutual information, surrogate tests), "
-          "the Cython-generated C, integer overflow of int index products, "
-          "alloca stack size, uninitialised reads. Correspondence / search: "
-          "an AddressSanitizer + UBSan build of the current tree is driven "
-          "through the public API over shape grids (empty, single sample, "
-          "N > T, mismatching shapes, NaN / constant data, out-of-range node "
+          "boundscheck=True / wraparound=False, no header, decorator or "
+          "with-block of the four .pyx files overrides them, and outside the "
+          "extern declarations no .pyx file declares a pointer, takes an "
+          "address or calls an allocator; in the model of such a buffer every "
+          "access yields a value from inside it or an IndexError, including "
+          "the loops that index before testing the bound; at each of the 24 "
+          "raw-pointer hand-overs the element widths of buffer, cast, extern "
+          "declaration and C definition agree; all 63 accesses of the C "
+          "routines are inside the extents the wrappers pass, for all sizes: "
+          "35 of the index-addressed routines (current-flow betweenness x2, "
+          "Spearman correlation) and 28 of the pointer-walking ones "
+          "(surrogate test matrices, histogram mutual information x2), whose "
+          "induction variables and pointer offsets are resolved by an "
+          "abstract interpreter and checked inductively (one fixed tactic; a "
+          "false obligation does not compile); the bin number written by the "
+          "guarded symbolisation is a valid column for NaN, +inf and every "
+          "non-negative sample (witness of escape without the guard); the "
+          "wrappers allocate those extents, take range and scaling from the "
+          "data and reject n_bins < 1. Not proved (partial): the Cython-"
+          "generated C, overflow of int index products, alloca stack size, "
+          "uninitialised reads. Correspondence / search: an AddressSanitizer "
+          "+ UBSan build of the current tree is driven through the public "
+          "API over shape grids (empty, single sample, N > T, mismatching "
+          "shapes, NaN / constant data, n_bins <= 0, out-of-range node "
           "indices) in child processes; a report or crash is the failing "
           "input, and a report inside a routine whose obligations are proved "
           "breaks the correspondence.",
   "design_ref": "DESIGN.md section 5, C20",
-  "note": "trusted: translator c_kernel_access.py (regex / brace-matching "
-          "reader of the C subset, extents justified by pattern checks of the "
-          "wrappers), LP64 widths of int / long, gcc's sanitizer runtime, "
+  "note": "trusted: translators c_kernel_access.py / c_pointer_walk.py "
+          "(regex / brace-matching reader and recursive-descent parser of "
+          "the C subset, affine abstract domain; extents justified by "
+          "pattern checks of the wrappers), LP64 widths of int / long, gcc's sanitizer runtime, "
           "numpy's allocator (small blocks are cached, which can hide an "
           "overflow between two live arrays); geo-model rewiring kernels are "
           "not driven (they may not return)",
